@@ -161,7 +161,9 @@ def run(ctx):
         res = ctx.tlc("Trace_Pure", cfg="p.cfg", data={"p.cfg": cfg, "rows.ndjson": text}, extra=["-continue"], timeout=1200, label="pure-method rows")
         if res["error"] and not res["violated"]:
             raise ToolingError("TLC error on the pure-method rows:\n" + res["error"])
-        for m in sorted({int(x) for x in re.findall(r"^/\\ k = (\d+)", res["out"], re.M)}):
+        if res["violated"] and not re.search(r"^(?:/\\ )?k = (\d+)", res["out"], re.M):
+            raise ToolingError("TLC rejects a pure-method row but prints no state:\n" + res["out"][-1500:])
+        for m in sorted({int(x) for x in re.findall(r"^(?:/\\ )?k = (\d+)", res["out"], re.M)}):
             r = prows[m - 1]
             ctx.violation("generated program %s: method %s is declared pure but calling it (%s) changed %s" % (
                 r["prog"], r["fn"], r["args"], "the receiver" if r["objchg"] else "the destination buffer"),
